@@ -163,8 +163,9 @@ def oracle_state(res, case, desc, k, batch, el, err, returned):
         return False
     if open_:
         want = [d[0] for d in remaining if d[1][0] == open_[0]]
-        if sorted(el) != sorted(want) or not el:
-            res.fail("sample in progress: eligible plates are not exactly its remaining plates (non-empty)", st, el, want, signature="C16:in-progress")
+        # the property: ONLY that sample's plates, and at least one (that it is all of them is the model's business -> tie)
+        if not set(el) <= set(want) or not el:
+            res.fail("sample in progress: eligible plates are not a non-empty set of its remaining plates", st, el, want, signature="C16:in-progress")
             return False
     else:
         for pid in el:
